@@ -402,7 +402,8 @@ func (fc *funcContext) translateExpr(expr ast.Expr) *expression {
 				}
 				return fc.formatExpr("%e / %e", e.X, e.Y)
 			case token.REM:
-				return fc.formatExpr(`(%1s = %2e %% %3e, %1s === %1s ? %1s : $throwRuntimeError("integer divide by zero"))`, fc.newLocalVariable("_r"), e.X, e.Y)
+				r := fc.newLocalVariable("_r")
+				return fc.formatExpr(`(%1s = %2e %% %3e, %1s === %1s ? %4s : $throwRuntimeError("integer divide by zero"))`, r, e.X, e.Y, fc.fixNumber(fc.formatExpr("%s", r), basic))
 			case token.SHL, token.SHR:
 				op := e.Op.String()
 				if e.Op == token.SHR && isUnsigned(basic) {
